@@ -4,6 +4,7 @@ from __future__ import annotations
 
 from typing import Any, Self
 
+import numpy as np
 from pydantic import ConfigDict, ValidationInfo, model_validator
 
 from ropt.config.utils import ImmutableBaseModel
@@ -90,6 +91,32 @@ class EnOptConfig(ImmutableBaseModel):
         self._mutable()
         self.gradient = self.gradient.fix_perturbations(self.variables, info.context)
         self._immutable()
+        return self
+
+    @model_validator(mode="after")
+    def _check_indices(self) -> Self:
+        # Indices into the filter, estimator and sampler lists must refer to
+        # existing entries, negative filter or sampler indices mean "none":
+        for name, section in (
+            ("objectives", self.objectives),
+            ("nonlinear_constraints", self.nonlinear_constraints),
+        ):
+            if section is None:
+                continue
+            filters = section.realization_filters
+            if filters is not None and np.any(filters >= len(self.realization_filters)):
+                msg = f"{name}: realization filter index out of range"
+                raise ValueError(msg)
+            estimators = section.function_estimators
+            if estimators is not None and np.any(
+                (estimators < 0) | (estimators >= len(self.function_estimators))
+            ):
+                msg = f"{name}: function estimator index out of range"
+                raise ValueError(msg)
+        samplers = self.gradient.samplers
+        if samplers is not None and np.any(samplers >= len(self.samplers)):
+            msg = "gradient: sampler index out of range"
+            raise ValueError(msg)
         return self
 
     @model_validator(mode="wrap")  # type: ignore[arg-type]
